@@ -921,10 +921,19 @@ int ICACHE_FLASH_ATTR supla_esp_mqtt_parse_int_with_prefix(
         return 0;
       }
 
-      int result = supla_esp_mqtt_str2int(*topic_name, a, err);
+      // All callers store the number in uint8 (channel number): only a
+      // non-negative decimal number not greater than 255 is accepted.
+      int result = 0;
 
-      if (err && *err) {
-        return 0;
+      for (size_t b = 0; b < a; b++) {
+        char c = (*topic_name)[b];
+        if (c < '0' || c > '9') {
+          return 0;
+        }
+        result = result * 10 + (c - '0');
+        if (result > 255) {
+          return 0;
+        }
       }
 
       (*topic_name) += a + 1;
